@@ -226,12 +226,12 @@ def gen_arff_table(rng, sparse):
         while True:
             name = gen_token(rng, 0.25).strip() or "n"
             if name not in used: used.add(name); break
-        kind = rng.choice(["numeric", "numeric", "string", "nominal", "date"] if not sparse else ["numeric", "numeric", "nominal"])
+        kind = rng.choice(["numeric", "numeric", "string", "nominal", "date"] if not sparse else ["numeric", "numeric", "string", "nominal"])
         levels = None
         if kind == "nominal":
             levels = []
             for _ in range(rng.choice([1, 2, 3])):
-                l = (gen_token(rng, 0.25 if not sparse else 0).strip() or "l")
+                l = (gen_token(rng, 0.25).strip() or "l")
                 if l not in levels: levels.append(l)
         cols.append((name, kind, levels))
     rows = []
